@@ -70,7 +70,7 @@ fn my_thir_body<'tcx>(
     let r = (ORIG_THIR_BODY.get().expect("orig thir_body"))(tcx, def);
     if let Ok((steal, root)) = &r {
         let kind = tcx.def_kind(def);
-        if matches!(kind, DefKind::Fn | DefKind::AssocFn | DefKind::Closure) {
+        if matches!(kind, DefKind::Fn | DefKind::AssocFn | DefKind::Closure | DefKind::Const { .. } | DefKind::AssocConst { .. } | DefKind::Static { .. }) {
             let thir = steal.borrow();
             let j = std::panic::catch_unwind(std::panic::AssertUnwindSafe(|| {
                 thirx::thir_body(tcx, def, &thir, *root)
@@ -116,6 +116,8 @@ impl rustc_driver::Callbacks for Cb {
             let kind = tcx.def_kind(def);
             if matches!(kind, DefKind::Fn | DefKind::AssocFn | DefKind::Closure) {
                 let _ = tcx.mir_built(def);
+            } else if matches!(kind, DefKind::Const { .. } | DefKind::AssocConst { .. } | DefKind::Static { .. }) {
+                let _ = tcx.thir_body(def);
             }
         }
 
@@ -149,6 +151,16 @@ impl rustc_driver::Callbacks for Cb {
             fns.push(j);
         }
 
+        // initialisers of const / static items (tables that a loop may iterate over)
+        let mut consts: Vec<J> = Vec::new();
+        let mut rest: Vec<(LocalDefId, J)> = thir_map.into_iter().collect();
+        rest.sort_by_key(|(d, _)| d.local_def_index.as_u32());
+        for (def, j) in rest {
+            if matches!(tcx.def_kind(def), DefKind::Const { .. } | DefKind::AssocConst { .. } | DefKind::Static { .. }) {
+                consts.push(J::Obj(vec![("def", J::s(cx.def_s(def.to_def_id()))), ("thir", j)]));
+            }
+        }
+
         let (adts, impls) = tables::tables(&mut cx);
 
         let out = J::Obj(vec![
@@ -164,6 +176,7 @@ impl rustc_driver::Callbacks for Cb {
             ("adts", J::Arr(adts)),
             ("impls", J::Arr(impls)),
             ("fns", J::Arr(fns)),
+            ("consts", J::Arr(consts)),
         ]);
         let mut s = String::with_capacity(1 << 24);
         out.write(&mut s);
